@@ -1,12 +1,12 @@
 #!/bin/bash
-# Run once after a fresh restore, offline: warm the Go build cache by building every property binary.
+# Run once after a fresh restore, offline: warm the Go build cache by building the binary of every
+# property claimed in MANIFEST.json (plain, instrumented-overlay and -race builds as each needs).
 set -u
 cd /verif || exit 2
 export GOFLAGS=-mod=mod GOPROXY=off GOSUMDB=off GOTOOLCHAIN=local
-mkdir -p .bin evidence
+mkdir -p .bin .work evidence
 rc=0
-for d in props/*/; do
-  lc=$(basename "$d")
-  ./run "$lc" --build-only || rc=2
+for id in $(python3 -c "import json; print(' '.join(c['property_id'] for c in json.load(open('MANIFEST.json'))['checks']))"); do
+  ./run "$id" --build-only || { echo "setup: build of $id failed" >&2; rc=2; }
 done
 exit $rc
